@@ -96,6 +96,10 @@ pub struct ExchCfg {
 
 pub type PrepFn = Arc<dyn Fn() -> Result<ureq_proto::client::flow::Flow<(), ureq_proto::client::flow::state::Prepare>, String> + Send + Sync>;
 
+fn longest_line(head: &[u8]) -> usize {
+    head.split(|c| *c == b'\n').map(|l| l.len() + 1).max().unwrap_or(0)
+}
+
 pub fn scope_all(_k: &str) -> bool {
     true
 }
@@ -294,54 +298,74 @@ impl Exch {
             if guard > 400 {
                 return Err((self.k("canonical", "stuck"), format!("canonical schedule did not reach {} (stuck in {})", until, self.flow.name())));
             }
-            let act = match &self.flow {
-                AnyFlow::SendRequest(f) => if f.can_proceed() { Act::Proceed } else { Act::HeadWrite(16384) },
-                AnyFlow::Await100(f) => {
-                    if !f.can_keep_await_100() {
-                        Act::Proceed
-                    } else if self.arrived < self.avail() {
-                        Act::Arrive(usize::MAX)
-                    } else if self.arrived > self.consumed {
-                        Act::Read100
-                    } else {
-                        Act::GiveUp
-                    }
+            self.canonical_step(false)?;
+        }
+        Ok(())
+    }
+
+    /// The next action of the canonical schedule. `fine`: small buffers and 7-byte arrivals instead of
+    /// large ones (a head, a body and a response then take several calls each).
+    pub fn canonical_act(&self, fine: bool) -> Option<Act> {
+        let (hb, bi, bb, rb, arr) = if fine { (self.cfg.ref_head.len().min(longest_line(&self.cfg.ref_head) + 2), 5usize, 16usize, 3usize, 7usize) } else { (16384, usize::MAX, 65536, 65536, usize::MAX) };
+        Some(match &self.flow {
+            AnyFlow::SendRequest(f) => if f.can_proceed() { Act::Proceed } else { Act::HeadWrite(hb) },
+            AnyFlow::Await100(f) => {
+                if !f.can_keep_await_100() {
+                    Act::Proceed
+                } else if fine && self.arrived > self.consumed {
+                    // look at every window, however short (more arrives when the look decides nothing)
+                    Act::Read100
+                } else if self.arrived < self.avail() {
+                    Act::Arrive(arr)
+                } else if self.arrived > self.consumed {
+                    Act::Read100
+                } else {
+                    Act::GiveUp
                 }
-                AnyFlow::SendBody(f) => if f.can_proceed() { Act::Proceed } else { Act::BodyWrite(usize::MAX, 65536) },
-                AnyFlow::RecvResponse(f) => {
-                    if f.can_proceed() {
-                        Act::Proceed
-                    } else if self.arrived < self.layout_head_end() {
-                        Act::ArriveTo(self.layout_head_end())
-                    } else {
-                        Act::TryResponse
-                    }
-                }
-                AnyFlow::RecvBody(f) => {
-                    let close = self.cfg.expected_framing() == Framing::Close;
-                    if self.arrived < self.avail() {
-                        Act::Arrive(usize::MAX)
-                    } else if close && self.consumed < self.cfg.stream.len() {
-                        Act::Read(65536)
-                    } else if f.can_proceed() {
-                        Act::Proceed
-                    } else {
-                        Act::Read(65536)
-                    }
-                }
-                AnyFlow::Redirect(_) => Act::Proceed,
-                _ => return Err((self.k("canonical", "stuck"), format!("canonical schedule cannot leave {}", self.flow.name()))),
-            };
-            let before = Sys::key(self);
-            self.step(&act)?;
-            if Sys::key(self) == before {
-                // a late interim 100 may sit before the head we jumped to: let everything arrive once
-                if self.arrived < self.avail() {
-                    self.arrived = self.avail();
-                    continue;
-                }
-                return Err((self.k("canonical", "no-progress"), format!("with everything arrived and large buffers, {:?} makes no progress in {}", act, self.flow.name())));
             }
+            AnyFlow::SendBody(f) => if f.can_proceed() { Act::Proceed } else { Act::BodyWrite(bi, bb) },
+            AnyFlow::RecvResponse(f) => {
+                if f.can_proceed() {
+                    Act::Proceed
+                } else if fine && self.arrived > self.consumed && !self.kf1_window() {
+                    Act::TryResponse
+                } else if self.arrived < self.layout_head_end() {
+                    if fine { Act::Arrive(arr) } else { Act::ArriveTo(self.layout_head_end()) }
+                } else {
+                    Act::TryResponse
+                }
+            }
+            AnyFlow::RecvBody(f) => {
+                let close = self.cfg.expected_framing() == Framing::Close;
+                if self.arrived < self.avail() && (!fine || self.arrived == self.consumed) {
+                    Act::Arrive(arr)
+                } else if close && self.consumed < self.cfg.stream.len() {
+                    Act::Read(rb)
+                } else if f.can_proceed() {
+                    Act::Proceed
+                } else {
+                    Act::Read(rb)
+                }
+            }
+            AnyFlow::Redirect(_) => Act::Proceed,
+            _ => return None,
+        })
+    }
+
+    /// One step of the canonical schedule, all oracles applied.
+    pub fn canonical_step(&mut self, fine: bool) -> R {
+        let Some(act) = self.canonical_act(fine) else {
+            return Err((self.k("canonical", "stuck"), format!("canonical schedule cannot leave {}", self.flow.name())));
+        };
+        let before = Sys::key(self);
+        self.step(&act)?;
+        if Sys::key(self) == before {
+            // a late interim 100 may sit before the head we jumped to / a window too short to decide: let more arrive
+            if self.arrived < self.avail() {
+                self.arrived = if fine { (self.arrived + 7).min(self.avail()) } else { self.avail() };
+                return Ok(());
+            }
+            return Err((self.k("canonical", "no-progress"), format!("with everything arrived, {:?} makes no progress in {}", act, self.flow.name())));
         }
         Ok(())
     }
@@ -529,7 +553,7 @@ impl Exch {
         let msg = self.cfg.server.get(self.msg_idx).map(|m| m.msg.clone());
         let AnyFlow::Await100(f) = &mut self.flow else { unreachable!() };
         let fp = f.verif_fingerprint();
-        let r = f.try_read_100(&window);
+        let r = crate::engine::with_aliased(&window, |w| f.try_read_100(w));
         let keep = f.can_keep_await_100();
         let changed = f.verif_fingerprint() != fp;
         let n = match r {
@@ -591,7 +615,7 @@ impl Exch {
         let idx = self.msg_idx;
         let AnyFlow::RecvResponse(f) = &mut self.flow else { unreachable!() };
         let fp = f.verif_fingerprint();
-        let r = f.try_response(&window);
+        let r = crate::engine::with_aliased(&window, |w| f.try_response(w));
         let ready = f.can_proceed();
         let changed = f.verif_fingerprint() != fp;
         let (n, resp) = match r {
@@ -648,7 +672,7 @@ impl Exch {
         let AnyFlow::RecvBody(f) = &mut self.flow else { unreachable!() };
         let was_ended = f.can_proceed() && framing != Framing::Close;
         let mut buf = vec![0xAAu8; out];
-        let r = f.read(&window, &mut buf);
+        let r = crate::engine::with_aliased(&window, |w| f.read(w, &mut buf));
         let ended = f.can_proceed();
         let (c, p) = match r {
             Ok(x) => x,
